@@ -108,7 +108,7 @@ func vpSleep(seconds int)
 func vpFaultArm()
 func vpFaultFired() bool
 func vpTraceBegin()
-func vpCrashCheck(mode string, spec string)
+func vpCrashCheck(base string, user string, op string)
 func vpFreshBytes(b []byte) bool
 func vpNoteWrite(b []byte)
 func vpNote(label string, v interface{})
